@@ -3,8 +3,11 @@
 //! node knows (table plus connected peers), each peer once and under its transport id, never the replying
 //! node itself, ascending distance, at most DHT_CLOSEST_NODES_COUNT.  What a node knows can grow while it
 //! answers (the requester dials it), so membership is checked against the knowledge AFTER the lookup and
-//! completeness against the knowledge BEFORE it.  The predicate is evaluated here (property check on the
-//! implementation's own replies); the closed-form rule itself is the Coq theorem.
+//! completeness against the knowledge BEFORE it.  Every reply becomes a Coq case (Model/Routing.v `rcase`):
+//! `check_rcase` evaluates the model's `reply_nodes` on it (meaning: Props/C02.v `C02_reply_check`),
+//! `prop_rcase` the conclusion of `C02_reply`; the same predicate is also evaluated here.  The requester is
+//! dropped AFTER the cut at the cap (filter_response_nodes), so a reply may be one short when the requester is
+//! among the nearest cap.
 use saorsa_core::dht_network_manager::*;
 use serde_json::json;
 use std::collections::{HashMap, HashSet};
@@ -13,7 +16,18 @@ use std::time::Duration;
 use vh::net::*;
 use vh::*;
 
-const CAP: usize = 8; // DHT_CLOSEST_NODES_COUNT; the translator pins MGR_DHT_CLOSEST_NODES_COUNT = 8 in Props/C02.v
+const CAP: usize = 8; // DHT_CLOSEST_NODES_COUNT; the Coq cases use the regenerated RT_DHT_CLOSEST_NODES_COUNT (pinned = 8 in Props/C02.v)
+const HEADER: &str = "From SV Require Import Lib.Base Gen.RoutingConsts Model.Routing.\nLocal Open Scope N_scope.";
+
+/// payload of a model node: index of the identifier string in a per-world table
+fn nd(idx: &mut HashMap<String, usize>, id: &str) -> String {
+    let n = idx.len(); let i = *idx.entry(id.to_string()).or_insert(n);
+    format!("nd {} {}", n_of_be(&dht_key_of(id)), i)
+}
+fn nds<'a, I: IntoIterator<Item = &'a String>>(idx: &mut HashMap<String, usize>, xs: I) -> String {
+    let mut v: Vec<&String> = xs.into_iter().collect(); v.sort();
+    coq_list(v.into_iter().map(|x| nd(idx, x)))
+}
 
 fn dist(id: &str, key: &[u8; 32]) -> [u8; 32] {
     let k = dht_key_of(id); let mut d = [0u8; 32];
@@ -55,6 +69,7 @@ async fn run_world(wi: u64, mut rng: Rng) -> anyhow::Result<Summary> {
     }
     let self_ids: Vec<HashSet<String>> = (0..n).map(|i| [names[i].clone(), nodes[i].tid.clone(), hex::encode(dht_key_of(&names[i]))].into_iter().collect()).collect();
     let tid_index: HashMap<String, usize> = nodes.iter().enumerate().map(|(i, x)| (x.tid.clone(), i)).collect();
+    let mut idx: HashMap<String, usize> = HashMap::new();
     let mut cid = 800000u64 + wi * 1000;   // disjoint from the case ids of the main C02 harness
     for _ in 0..6 {
         let o = rng.below(n as u64) as usize;
@@ -83,11 +98,23 @@ async fn run_world(wi: u64, mut rng: Rng) -> anyhow::Result<Summary> {
             }
             for w in l.windows(2) { if dist(&w[0], &key) > dist(&w[1], &key) { problems.push("not in ascending distance order".into()); break; } }
             let requester = &e.to;
+            let req_known = after[x].contains(requester);
             for u in before[x].iter() {
                 if self_ids[x].contains(u) || u == requester || l.contains(u) { continue; }
-                let farther_than_all = l.len() >= CAP && l.last().map(|w| dist(u, &key) >= dist(w, &key)).unwrap_or(false);
-                if !farther_than_all { problems.push(format!("omits known peer {} although it is nearer than the farthest entry (or the reply is short)", &u[..8])); }
+                let beyond_all = l.iter().all(|w| dist(u, &key) > dist(w, &key));
+                let full = l.len() >= CAP;
+                let requester_took_a_slot = l.len() + 1 >= CAP && req_known && dist(u, &key) > dist(requester, &key);
+                if !(beyond_all && (full || requester_took_a_slot)) { problems.push(format!("omits known peer {} although it is nearer than a named peer or the reply is short", &u[..8])); }
             }
+            // the same reply as a case for the Coq model (ids in sorted order: the model's result does not depend on the order)
+            let selfks = coq_list(self_ids[x].iter().map(|i| n_of_be(&dht_key_of(i))));
+            // filter_response_nodes compares the named transport ids with the identifier the requester CLAIMS in its
+            // request (message.source = its configured local_peer_id), which is what the model's requester stands for
+            let claimed = tid_index.get(requester).map(|&r| names[r].clone()).unwrap_or_else(|| requester.clone());
+            let term = format!("({}, {}, {}, RT_DHT_CLOSEST_NODES_COUNT, {}, {}, {})", selfks, nd(&mut idx, &claimed), n_of_be(&key),
+                nds(&mut idx, before[x].iter()), nds(&mut idx, after[x].iter()), coq_list(l.iter().map(|i| nd(&mut idx, i))));
+            sum.cases.insert(cid.to_string(), json!({"term": term, "desc": {"kind": "manager reply", "world": wi, "replier": x, "requester": &requester[..8.min(requester.len())],
+                "key": hex::encode(key), "reply": l.iter().map(|i| i[..8.min(i.len())].to_string()).collect::<Vec<_>>(), "known_before": before[x].len(), "known_after": after[x].len()}}));
             sum.evaluations += 1;
             if l.len() >= 2 { sum.distinct_nontrivial += 1; }
             sum.count(&format!("reply_len:{}", l.len()));
@@ -113,8 +140,9 @@ fn main() {
     let rt = tokio::runtime::Builder::new_multi_thread().worker_threads(8).enable_all().build().unwrap();
     let mut rng = Rng::new(args.seed ^ 0x0c02);
     let mut sum = Summary::default();
-    sum.rule = "manager level: node lists in the FIND_NODE / FIND_VALUE replies of 2..12 real nodes (random connectivity) during lookups and gets for random / peer-equal / zero keys: at most 8, each peer once under its transport id, never the replier itself, ascending distance, members known to the replier, nothing nearer omitted".into();
+    sum.rule = "manager level: node lists in the FIND_NODE / FIND_VALUE replies of 2..12 real nodes (random connectivity) during lookups and gets for random / peer-equal / zero keys: at most 8, each peer once under its transport id, never the replier itself, ascending distance, members known to the replier, nothing nearer omitted (one slot may go to the requester, which is dropped after the cut); every reply is also evaluated against the model's reply_nodes inside Coq (check_rcase / prop_rcase)".into();
     let worlds = if args.thorough() { 120 } else { 10 };
+    let mut w = CaseWriter::new(&args.out, "cases_c02net", HEADER, "rcase", "check_rcase", "prop_rcase", 120);
     let mut wi = 0;
     while wi < worlds {
         let futs: Vec<_> = (0..5usize.min(worlds - wi)).map(|k| run_world((wi + k) as u64, rng.fork())).collect();
@@ -124,6 +152,12 @@ fn main() {
                     for (kn, nn) in local.distribution.iter() { sum.add(&format!("net:{kn}"), *nn); }
                     sum.direct_violations.extend(local.direct_violations.iter().cloned());
                     sum.evaluations += local.evaluations; sum.distinct_nontrivial += local.distinct_nontrivial;
+                    let mut ids: Vec<u64> = local.cases.keys().filter_map(|k| k.parse().ok()).collect(); ids.sort();
+                    for id in ids {
+                        let v = &local.cases[&id.to_string()];
+                        w.push(id, v["term"].as_str().unwrap_or("").to_string());
+                        sum.case(id, v["desc"].clone());
+                    }
                     if sum.samples.len() < 3 { sum.samples.extend(local.samples.iter().cloned()); }
                 }
                 Err(e) => { sum.notes.push(format!("world failed: {e}")); sum.count("world_failed"); }
@@ -134,6 +168,7 @@ fn main() {
     let v = json!({"evaluations": sum.evaluations, "distinct_nontrivial": sum.distinct_nontrivial, "rule": sum.rule, "distribution": sum.distribution,
         "samples": sum.samples, "direct_violations": sum.direct_violations, "discarded_ambiguous": 0, "notes": sum.notes});
     std::fs::write(args.out.join("summary_extra.json"), serde_json::to_string_pretty(&v).unwrap()).unwrap();
-    std::fs::write(args.out.join("cases_extra.json"), "{}").unwrap();
+    w.flush();
+    std::fs::write(args.out.join("cases_extra.json"), serde_json::to_string(&sum.cases).unwrap()).unwrap();
     std::process::exit(0);
 }
